@@ -34,11 +34,15 @@ def top_op(with_past=True):
     alts = [sched, sched, sched, simple, simple, step, run]
     if with_past:
         alts.append(st.tuples(st.just('past'), st.sampled_from([0.125, 1, 7])).map(list))
+        alts.append(st.tuples(st.just('again'), st.integers(0, 5)).map(list))
     return st.one_of(*alts)
 
 
-def cases(max_ops, prologue=None, with_past=True):
-    return st.fixed_dictionaries({
-        'weights': st.lists(st.sampled_from(WEIGHTS), min_size=1, max_size=6),
-        'ops': st.lists(top_op(with_past), min_size=1, max_size=max_ops).map(lambda l: (prologue or []) + l),
-    })
+def cases(max_ops, prologue=None, with_past=True, min_ops=8):
+    # a final run flushes what is still queued so that late ties are decided too
+    epilogue = st.sampled_from([[], [['run', 2]], [['run', 5]], [['run', 1], ['run', 4]]])
+    return st.builds(
+        lambda w, ops, ep: {'weights': w, 'ops': (prologue or []) + ops + ep},
+        st.lists(st.sampled_from(WEIGHTS), min_size=1, max_size=6),
+        st.lists(top_op(with_past), min_size=min_ops, max_size=max_ops),
+        epilogue)
